@@ -230,7 +230,7 @@ C10_OBS = [O_NEW_FAIL, O_GLOBAL_INIT, O_TFF_FAULT, O_O2_EAGAIN, O_O2_ENOSYS, O_O
     pick(C14_OPS, "O14.6.base", "O14.5.base", "O14.1.base") + \
     pick(C13_OBS, "O13.1a", "O13.1b", "O13.1g", "O13.3a", "O13.3b", "O13.3c") + [o for o in O_ERR_EQUIV]
 C03_OBS = [O_RESOLVE_PARENT] + [o for o in C14_OPS if o["id"].endswith(".base")] + O_RA_TOP[:1] + pick(C13_OBS, "O13.1a", "O13.1b", "O13.3a", "O13.3b", "O13.1f")
-C11_OBS = C11_CAPI + pick(C14_OPS, "O14.5.base", "O14.5.nobase", "O14.6.base", "O14.1.base") + [O_RESOLVE_PARENT, O_TRY_FROM_FD, O_OPEN_OKPATH, O_OPEN_LOOKUPFAIL, O_OF_LINK] + pick(C13_OBS, "O13.3c")
+C11_OBS = C11_CAPI + pick(C14_OPS, "O14.5.base", "O14.5.nobase", "O14.6.base", "O14.1.base", "O14.4.base", "O14.7.base") + [O_RESOLVE_PARENT, O_TRY_FROM_FD, O_OPEN_OKPATH, O_OPEN_LOOKUPFAIL, O_OF_LINK] + pick(C13_OBS, "O13.3c")
 
 WALK_STUBS = ["syscalls::openat_follow", "syscalls::statx", "syscalls::readlinkat", "FdExt>::metadata", "try_clone_to_owned"]
 O_WALK_PLAIN = ob("O7.4a", RP + "rprocfs_walk_one_component_plain", "opath_resolve (emulated procfs walk), one component of <= L symbolic bytes that is NOT a symlink, every non-creation flag word, arbitrary kernel: '..' => EXDEV with nothing opened; opens are O_NOFOLLOW single components; each descriptor is statx-checked before use/return", stubs=WALK_STUBS, covers_may_be_unsat=["ELOOP", "link body read"], tiers=("thorough",), timeout={"thorough": 4500}, cost=9)
@@ -362,7 +362,7 @@ QUICK_SETS = {
     "C03": ["O14.0", "O14.1.base", "O14.5.base", "O14.6.base", "O14.7.base", "O13.2a", "O13.1a", "O13.1b", "O13.3a"],
     "C05": ["O5.1a", "O5.1b", "O5.1c", "O5.1d", "O5.2a", "O5.2b", "O5.2c", "O14.5.base", "O14.6.base"],
     "C10": ["O10.4", "O10.5", "O10.3", "O10.1a", "O10.1b", "O10.1c", "O6.1", "O14.6.base", "O14.5.base", "O13.1b", "O13.3a", "OE.rawos_d0"],
-    "C11": ["O11.c1", "O11.c4", "O14.5.base", "O14.5.nobase", "O14.6.base", "O14.1.base", "O6.3", "O6.4c"],
+    "C11": ["O11.c1", "O11.c4", "O14.5.base", "O14.5.nobase", "O14.6.base", "O14.1.base", "O14.7.base", "O6.3", "O6.4c"],
     "C14": ["O14.0", "O14.1.base", "O14.2.base", "O14.3.base", "O14.4.base", "O14.5.base", "O14.6.base", "O14.6.nobase", "O14.7.base", "O14.8", "OE.inval_d0", "OE.rawos_d0"],
 }
 
